@@ -42,6 +42,19 @@ fn add(cmd: &mut Command, arg: &str, how: u8) -> bool {
         2 => cmd.add_argument(Cow::Borrowed(arg)).is_ok(),
         3 => cmd.add_argument(Cow::<str>::Owned(arg.to_owned())).is_ok(),
         _ => {
+            // &String. Every other time the String is a buffer the application reuses: it held a plain
+            // string of the same length (every byte that matters to either side replaced by a letter) that
+            // was sent in another command a moment ago, and was then overwritten in place - same address,
+            // same length, and, when the special characters sit in the middle, same beginning and end
+            if (how / 5) % 2 == 1 {
+                let mut s: String = arg.chars().map(|c| if c.is_ascii() && (c <= ' ' || "\"'\\\u{7f}".contains(c)) { 'a' } else { c }).collect();
+                let mut earlier = Command::new("earlier");
+                let _ = earlier.add_argument(&s);
+                let _ = earlier.add_argument(s.as_str());
+                s.clear();
+                s.push_str(arg);
+                return cmd.add_argument(&s).is_ok();
+            }
             let s = arg.to_owned();
             cmd.add_argument(&s).is_ok()
         }
